@@ -55,13 +55,13 @@ func (s *c28Sender) SendToPeer(p identity.AgentID, f *protocol.Frame) error {
 func (s *c28Sender) GetPeerIDs() []identity.AgentID { return s.peers }
 
 type c28World struct {
-	a        *agent.Agent
-	sender   *c28Sender
-	dir      string
-	sl, wk   int
-	keys     [2]*crypto.SigningKeypair
-	now      int64             // wall-clock second fixed at reset: relative timestamps of the whole case count from it
-	labels   map[string]string // command content (origin,id,ts,signature) -> "<ts token>:<sig token>"
+	a      *agent.Agent
+	sender *c28Sender
+	dir    string
+	sl, wk int
+	keys   [2]*crypto.SigningKeypair
+	now    int64             // wall-clock second fixed at reset: relative timestamps of the whole case count from it
+	labels map[string]string // command content (origin,id,ts,signature) -> "<ts token>:<sig token>"
 }
 
 func c28Content(o identity.AgentID, id, ts uint64, sig [64]byte) string {
@@ -100,7 +100,7 @@ func c28Seed(b byte) [32]byte {
 	return s
 }
 
-func c28Reset(signing, asleep bool) string {
+func c28Reset(signing, canSign, asleep bool) string {
 	if c28W != nil {
 		c28W.a.VerifC28Close()
 		os.RemoveAll(c28W.dir)
@@ -118,6 +118,12 @@ func c28Reset(signing, asleep bool) string {
 	if signing {
 		cfg.Management.SigningPublicKey = hex.EncodeToString(w.keys[0].PublicKey[:])
 	}
+	if canSign { // this agent is an operator's: it holds the private key and signs what it issues
+		cfg.Management.SigningPrivateKey = hex.EncodeToString(w.keys[0].PrivateKey[:])
+	}
+	// TriggerWake floods for max(5 s, 2*PollInterval+PollDuration); keep that at its 5 s floor
+	cfg.Sleep.PollInterval = time.Second
+	cfg.Sleep.PollDuration = 100 * time.Millisecond
 	w.sender = &c28Sender{}
 	a, err := agent.VerifC28New(cfg, w.sender, sleep.Callbacks{
 		OnSleep: func() error { w.sl++; return nil },
@@ -148,7 +154,7 @@ func c28SeenBy(w *c28World, tok string) []identity.AgentID {
 }
 
 // c28Cmd builds the command fields for an op (shared by sleep and wake: identical layout).
-func c28Cmd(w *c28World, origin int, id uint64, tsTok, sigTok, seenTok string) (identity.AgentID, uint64, uint64, [64]byte, []identity.AgentID) {
+func c28Cmd(w *c28World, wake bool, origin int, id uint64, tsTok, sigTok, seenTok string) (identity.AgentID, uint64, uint64, [64]byte, []identity.AgentID) {
 	var ts uint64
 	if tsTok[0] == 'r' {
 		d, err := strconv.ParseInt(tsTok[1:], 10, 64)
@@ -160,14 +166,22 @@ func c28Cmd(w *c28World, origin int, id uint64, tsTok, sigTok, seenTok string) (
 		ts = v
 	}
 	o := c28ID(w, origin)
-	signable := func(o identity.AgentID, id, ts uint64) []byte {
+	// what the key holder signs when issuing a command of the given kind
+	signableAs := func(asWake bool, o identity.AgentID, id, ts uint64) []byte {
+		if asWake {
+			return (&protocol.WakeCommand{OriginAgent: o, CommandID: id, Timestamp: ts}).SignableBytes()
+		}
 		return (&protocol.SleepCommand{OriginAgent: o, CommandID: id, Timestamp: ts}).SignableBytes()
 	}
+	signable := func(o identity.AgentID, id, ts uint64) []byte { return signableAs(wake, o, id, ts) }
 	var sig [64]byte
 	switch sigTok {
 	case "zero":
 	case "valid":
 		sig = crypto.Sign(w.keys[0].PrivateKey, signable(o, id, ts))
+	case "xkind": // the key holder issued a command of the OTHER kind; its signature is transplanted
+		sig = crypto.Sign(w.keys[0].PrivateKey, signableAs(!wake, o, id, ts))
+		sigTok = "valid" // byte-for-byte indistinguishable from a valid signature: printed as such
 	case "bad":
 		for i := range sig {
 			sig[i] = byte(i*7 + 1)
@@ -214,6 +228,28 @@ func c28Observe(w *c28World) string {
 			continue // route / node-info traffic is not a sleep or wake command
 		}
 		lab, ok := w.labels[c28Content(o, id, ts, sig)]
+		idTok := strconv.FormatUint(id, 10)
+		if !ok && o == w.a.VerifC28ID() {
+			// issued by this agent (TriggerSleep/TriggerWake): the id comes from its clock; describe the frame by what can be checked
+			idTok = "fresh"
+			tl := fmt.Sprintf("?%d", ts)
+			if d := int64(ts) - time.Now().Unix(); d >= -10 && d <= 1 {
+				tl = "now"
+			}
+			var signable []byte
+			if typ == "S" {
+				signable = (&protocol.SleepCommand{OriginAgent: o, CommandID: id, Timestamp: ts}).SignableBytes()
+			} else {
+				signable = (&protocol.WakeCommand{OriginAgent: o, CommandID: id, Timestamp: ts}).SignableBytes()
+			}
+			sl := "bad"
+			if sig == ([64]byte{}) {
+				sl = "zero"
+			} else if crypto.Verify(w.keys[0].PublicKey, signable, sig) {
+				sl = "valid"
+			}
+			lab, ok = tl+":"+sl, true
+		}
 		if !ok {
 			lab = fmt.Sprintf("?%d:?", ts)
 		}
@@ -225,10 +261,16 @@ func c28Observe(w *c28World) string {
 		if sbs == "" {
 			sbs = "-"
 		}
-		items = append(items, fmt.Sprintf("%s:%s:%s:%d:%s:%s", c28Idx(w, s.to), typ, c28Idx(w, o), id, lab, sbs))
+		items = append(items, fmt.Sprintf("%s:%s:%s:%s:%s:%s", c28Idx(w, s.to), typ, c28Idx(w, o), idTok, lab, sbs))
 	}
 	sort.Strings(items)
-	fwd := strings.Join(items, ",")
+	var uniq []string // TriggerWake floods the same frame repeatedly
+	for i, it := range items {
+		if i == 0 || it != items[i-1] {
+			uniq = append(uniq, it)
+		}
+	}
+	fwd := strings.Join(uniq, ",")
 	if fwd == "" {
 		fwd = "-"
 	}
@@ -241,14 +283,14 @@ func c28Run(line string) string {
 	f := fields(line)
 	switch f[0] {
 	case "reset":
-		return c28Reset(f[1] == "1", f[2] == "1")
+		return c28Reset(f[1] != "0", f[1] == "2", f[2] == "1")
 	case "d":
 		w := c28W
 		from, _ := strconv.Atoi(f[2])
 		origin, _ := strconv.Atoi(f[3])
 		id, err := strconv.ParseUint(f[4], 10, 64)
 		must(err)
-		o, cid, ts, sig, seen := c28Cmd(w, origin, id, f[5], f[6], f[7])
+		o, cid, ts, sig, seen := c28Cmd(w, f[1] == "fw" || f[1] == "qw", origin, id, f[5], f[6], f[7])
 		sc := &protocol.SleepCommand{OriginAgent: o, CommandID: cid, Timestamp: ts, Signature: sig, SeenBy: seen}
 		wc := &protocol.WakeCommand{OriginAgent: o, CommandID: cid, Timestamp: ts, Signature: sig, SeenBy: seen}
 		var fr *protocol.Frame
@@ -266,6 +308,31 @@ func c28Run(line string) string {
 		}
 		w.a.VerifC28Process(c28ID(w, from), fr)
 		return c28Observe(w)
+	case "dq": // one QUEUED_STATE frame carrying a sleep command and a wake command
+		w := c28W
+		from, _ := strconv.Atoi(f[1])
+		mk := func(wake bool, a []string) (identity.AgentID, uint64, uint64, [64]byte, []identity.AgentID) {
+			origin, _ := strconv.Atoi(a[0])
+			id, err := strconv.ParseUint(a[1], 10, 64)
+			must(err)
+			return c28Cmd(w, wake, origin, id, a[2], a[3], a[4])
+		}
+		o1, i1, t1, g1, b1 := mk(false, f[2:7])
+		o2, i2, t2, g2, b2 := mk(true, f[7:12])
+		qs := &protocol.QueuedState{
+			SleepCmd: &protocol.SleepCommand{OriginAgent: o1, CommandID: i1, Timestamp: t1, Signature: g1, SeenBy: b1},
+			WakeCmd:  &protocol.WakeCommand{OriginAgent: o2, CommandID: i2, Timestamp: t2, Signature: g2, SeenBy: b2},
+		}
+		w.a.VerifC28Process(c28ID(w, from), &protocol.Frame{Type: protocol.FrameQueuedState, StreamID: protocol.ControlStreamID, Payload: qs.Encode()})
+		return c28Observe(w)
+	case "trig": // issuer side: the operator action on this agent (TriggerWake keeps flooding for 5 s)
+		w := c28W
+		if f[1] == "s" {
+			_ = w.a.TriggerSleep()
+		} else {
+			_ = w.a.TriggerWake()
+		}
+		return c28Observe(w)
 	case "peer":
 		w := c28W
 		p, _ := strconv.Atoi(f[1])
@@ -277,7 +344,7 @@ func c28Run(line string) string {
 
 func c28Gen(w *bufio.Writer, seed int64, tier string) {
 	r := newRng(seed)
-	n := 120
+	n := 100
 	if tier == "thorough" {
 		n = 1500
 	}
@@ -285,12 +352,16 @@ func c28Gen(w *bufio.Writer, seed int64, tier string) {
 	tsToks := []string{"r0", "r0", "r0", "r-1", "r1", "r-60", "r60", fmt.Sprintf("r-%d", win-3), fmt.Sprintf("r%d", win-3),
 		fmt.Sprintf("r-%d", win+3), fmt.Sprintf("r%d", win+3), "r-100000", "r100000", "a0", "a1", "a4611686018427387904",
 		"a9223372036854775807", "a9223372036854775808", "a18446744073709551615", "a9223372036792640000", "a20000000000"}
-	sigs := []string{"valid", "valid", "valid", "zero", "bad", "otherkey", "wrongorigin", "wrongid", "wrongts"}
+	sigs := []string{"valid", "valid", "valid", "xkind", "xkind", "zero", "bad", "otherkey", "wrongorigin", "wrongid", "wrongts"}
 	vias := []string{"fs", "fw", "qs", "qw"}
 	for i := 0; i < n; i++ {
 		signing := !r.chance(15)
 		asleep := r.chance(50)
-		fmt.Fprintf(w, "reset %d %d\n", c28B2i(signing), c28B2i(asleep))
+		mode := c28B2i(signing)
+		if signing && r.chance(15) {
+			mode = 2 // this agent also holds the private key
+		}
+		fmt.Fprintf(w, "reset %d %d\n", mode, c28B2i(asleep))
 		steps := 1 + r.intn(4)
 		if r.chance(8) { // long history on one agent: state left by earlier commands is re-used
 			steps = 10 + r.intn(15)
@@ -299,6 +370,32 @@ func c28Gen(w *bufio.Writer, seed int64, tier string) {
 		for s := 0; s < steps; s++ {
 			if r.chance(12) {
 				fmt.Fprintf(w, "peer %d\n", 1+r.intn(5))
+				continue
+			}
+			if r.chance(4) || (tier == "thorough" && mode == 2 && r.chance(10)) { // issuer side (100 ms)
+				fmt.Fprintf(w, "trig s\n")
+				asleep = true
+				continue
+			}
+			if tier == "thorough" && r.chance(1) { // TriggerWake floods for 5 s
+				fmt.Fprintf(w, "trig w\n")
+				asleep = false
+				continue
+			}
+			if r.chance(10) { // QUEUED_STATE carrying both a sleep and a wake command
+				c := func(idv uint64) string {
+					ts, sig := tsToks[r.intn(len(tsToks))], sigs[r.intn(len(sigs))]
+					if r.chance(50) {
+						ts, sig = r.pickS("r0", "r-5", "r7"), r.pickS("valid", "valid", "xkind")
+					}
+					return fmt.Sprintf("%d %d %s %s %s", r.pick(4, 4, 5, 1), idv, ts, sig, r.pickS("-", "-", "1", "1.2", "0", "2.3.4"))
+				}
+				a, b := nextID+1, nextID+2
+				if r.chance(20) {
+					b = a // same (origin?, id) in both halves
+				}
+				nextID += 2
+				fmt.Fprintf(w, "dq %d %s %s\n", 1+r.intn(3), c(a), c(b))
 				continue
 			}
 			via := vias[r.intn(len(vias))]
@@ -321,11 +418,7 @@ func c28Gen(w *bufio.Writer, seed int64, tier string) {
 				ts, sig = r.pickS("r0", "r-5", "r7"), "valid"
 			}
 			seen := "-"
-			if via == "fs" || via == "fw" { // queued commands: <= 1 SeenBy entry (see QueuedState decoder note)
-				seen = r.pickS("-", "-", "1", "1.2", "2", "0", "1.0", "4.5")
-			} else {
-				seen = r.pickS("-", "-", "1", "0")
-			}
+			seen = r.pickS("-", "-", "1", "1.2", "2", "0", "1.0", "4.5")
 			origin := r.pick(4, 4, 5, 1, 0)
 			fmt.Fprintf(w, "d %s %d %d %d %s %s %s\n", via, 1+r.intn(3), origin, id, ts, sig, seen)
 			if sig == "valid" && (signing || true) && strings.HasPrefix(ts, "r") && !strings.Contains(seen, "0") {
